@@ -96,6 +96,8 @@ class Step:
         self.kind, self.policy, self.cont, self.name, self.val, self.std, self.arg = kind, policy, cont, name, val, std, arg
 
     def text(self):
+        if self.kind in ("b", "w"):
+            return self.kind + self.arg.decode()
         if self.kind == "r":
             return "r%d%s:%s" % (1 if self.cont else 0, self.policy, self.val)
         if self.kind == "e":
